@@ -88,6 +88,15 @@ func (p *Prog) VerifyFunction(fn *ssa.Function, fc *FuncContract, split *int, wa
 	e := NewEnc(p, unitName(fn))
 	e.Fn = fn
 	e.FC = fc
+	if fc != nil {
+		for _, r := range fc.Reveals {
+			if _, ok := p.CS.SpecFuncs[r]; !ok {
+				e.failed = fmt.Errorf("%s: reveal of unknown spec function %s", e.Unit, r)
+				return e
+			}
+			e.revealed[r] = true
+		}
+	}
 	if split != nil {
 		e.hasSplit = true
 		e.splitVar = fc.Split.Var
@@ -110,12 +119,24 @@ func (p *Prog) VerifyFunction(fn *ssa.Function, fc *FuncContract, split *int, wa
 		e.assumeValid(st, v, prm.Type())
 		args = append(args, v)
 		pbind[prm.Name()] = TV{Val: v, Ty: prm.Type()}
-		if e.hasSplit && prm.Name() == e.splitVar {
-			e.fact(Eq(v, BVBigInt(v.S.BVWidth(), int64(e.splitVal))))
-		}
 	}
 	if fn.Signature.Recv() != nil && len(fn.Params) > 0 {
 		pbind["self"] = pbind[fn.Params[0].Name()]
+	}
+	if e.hasSplit {
+		// the split expression (a parameter or any entry-state expression) is fixed to the case value
+		sx, err := parseSpecExpr(e.splitVar)
+		if err != nil {
+			e.failed = fmt.Errorf("%s: bad split expression: %v", e.Unit, err)
+			return e
+		}
+		ec := &EvalCtx{e: e, st: st, old: st, bind: pbind, spec: fc.Spec}
+		sv, err := ec.eval(sx)
+		if err != nil {
+			e.failed = fmt.Errorf("%s: split expression: %v", e.Unit, err)
+			return e
+		}
+		e.fact(Eq(sv.Val, BVBigInt(sv.S.BVWidth(), int64(e.splitVal))))
 	}
 	var fvs []Val
 	for _, fv := range fn.FreeVars {
@@ -233,7 +254,9 @@ func (p *Prog) VerifyFunction(fn *ssa.Function, fc *FuncContract, split *int, wa
 			if cur.T == base.T || e.modifiesGhost(fc, strings.TrimPrefix(hn, "G_")) {
 				continue
 			}
-			e.oblig(r.st, "lock", "balanced@"+rlabel, Eq(cur, base), r.instr.Pos(), nil, nil)
+			l := Val{"l!", SLoc}
+			bal := Forall([]Val{l}, Implies(Val{app("<", LRef(l).T, fr.oldSt.next.T), SBool}, Eq(Select(cur, l), Select(base, l))))
+			e.oblig(r.st, "lock", "balanced@"+rlabel, bal, r.instr.Pos(), nil, nil)
 		}
 		// frame
 		if fc != nil && fc.HasMod {
@@ -368,6 +391,9 @@ func (e *Enc) frameObligations(fr *Frame, st *State, fc *FuncContract, pbind map
 // VerifyLemma proves a contract-level lemma.
 func (p *Prog) VerifyLemma(l *Lemma, split *int) *Enc {
 	e := NewEnc(p, "lemma:"+l.Name)
+	for _, r := range l.Reveals {
+		e.revealed[r] = true
+	}
 	if split != nil {
 		e.hasSplit = true
 		e.splitVar = l.Split.Var
